@@ -658,3 +658,59 @@ def rule_lex_prio(ctx: RuleContext, p: Program, rid: str) -> None:
     for a, b in decided:
         if (a, b) not in found:
             ctx.ok(rid, f'beancount.lark:{a}<{b}', 'no word of the later terminal has a proper prefix the earlier one matches')
+
+
+# ====================================================================== INLINE-EOL (added in round 7)
+def rule_inline_eol(ctx: RuleContext, p: Program, rid: str) -> None:
+    """INLINE of a tree model agrees with whether its grammar rule consumes the end-of-line mark"""
+    ctx.rule(rid, 'Parser.parse() picks the post-lexer by the target\'s INLINE constant: the line-oriented one closes the input with an EOL mark '
+                  '(and a DEDENT mark), the inline one passes the token stream through.  For every registered tree model: INLINE is false '
+                  'exactly when the last terminal a yield of its grammar rule can end with (computed over the compiled grammar, nullable '
+                  'tails skipped) is one of those marks.  Otherwise the text a model prints is rejected when parsed as that model')
+    g = grammar(p)
+    by: dict[str, list] = {}
+    for r in g.rules:
+        by.setdefault(str(r.origin.name), []).append(r)
+    terms = set(g.terminals) | set(g.declared)
+
+    def nullable(sym: str, seen: frozenset = frozenset()) -> bool:
+        if sym in terms or sym in seen:
+            return False
+        return any(all(nullable(str(x.name), seen | {sym}) for x in r.expansion) for r in by.get(sym, []))
+
+    def last_terms(sym: str, seen: frozenset = frozenset()) -> set[str]:
+        if sym in terms:
+            return {sym}
+        if sym in seen:
+            return set()
+        out: set[str] = set()
+        for r in by.get(sym, []):
+            for x in reversed(r.expansion):
+                nm = str(x.name)
+                out |= last_terms(nm, seen | {sym})
+                if not nullable(nm):
+                    break
+        return out
+
+    marks = {'EOL', 'DEDENT_MARK'}
+    n = 0
+    seen_cls: set[str] = set()
+    for c in p.registered('tree_model'):
+        rule = p.class_const(c, 'RULE')
+        inl = p.class_const(c, 'INLINE')
+        rn = rule.value if isinstance(rule, ast.Constant) else None
+        if rn not in by or c.qualname in seen_cls:
+            continue
+        seen_cls.add(c.qualname)
+        iv = bool(inl.value) if isinstance(inl, ast.Constant) else False
+        lt = last_terms(rn)
+        line_oriented = bool(lt & marks)
+        if line_oriented and (lt - marks - {'NEVER', 'NEVER2'}):
+            raise AnalysisError(f'{rid}: rule {rn} can end both with an end-of-line mark and with {sorted(lt - marks)}')
+        n += 1
+        ctx.check(iv == (not line_oriented), rid, f'{c.module.name.split(".", 1)[1]}:{c.name}', f'INLINE={iv}, rule {rn} ends with {sorted(lt)[:4]}',
+                  f'{c.name}.INLINE is {iv}, but a yield of its grammar rule `{rn}` ends with {sorted(lt)[:5]}: parse(text, {c.name}) runs the '
+                  f'{"inline" if iv else "line-oriented"} post-lexer, which {"does not supply the EOL mark the rule needs" if iv else "appends an EOL mark the rule cannot take"}, so '
+                  f'every text the model prints is rejected when parsed as that model', c.where, note=f'INLINE={iv}')
+    if n < 30:
+        raise AnalysisError(f'{rid}: only {n} tree models with a grammar rule')
